@@ -104,8 +104,10 @@ func specType(name string) types.Type {
 		return types.Typ[types.Int32]
 	case "uint16":
 		return types.Typ[types.Uint16]
-	case "uint8", "byte":
+	case "uint8":
 		return types.Typ[types.Uint8]
+	case "byte":
+		return types.Universe.Lookup("byte").Type()
 	case "bool":
 		return types.Typ[types.Bool]
 	case "string":
@@ -116,9 +118,13 @@ func specType(name string) types.Type {
 		return types.NewInterfaceType(nil, nil)
 	case "uint":
 		return types.Typ[types.Uint]
+	case "bytes":
+		return bytesType
 	}
 	return nil
 }
+
+var bytesType = types.NewSlice(types.Universe.Lookup("byte").Type())
 
 func untyped(v constant.Value) Val {
 	return Val{T: types.Typ[types.UntypedInt], Const: v}
@@ -506,6 +512,12 @@ func (c *specCtx) call(t *ast.CallExpr, n *SpecNode) Val {
 		return c.fail("cap of %v", v.T)
 	case "ite":
 		cnd, a, b := arg(0), arg(1), arg(2)
+		if len(a.L) == 1 && a.L[0] == "nil" && b.T != nil {
+			a = zeroVal(b.T)
+		}
+		if len(b.L) == 1 && b.L[0] == "nil" && a.T != nil {
+			b = zeroVal(a.T)
+		}
 		if a.Const != nil && b.Const == nil {
 			a = c.coerce(a, b.T)
 		}
@@ -660,7 +672,15 @@ func (c *specCtx) call(t *ast.CallExpr, n *SpecNode) Val {
 		return r
 	}
 	// method calls on values: pure library methods only
-	if sel, ok := t.Fun.(*ast.SelectorExpr); ok && fname == "" {
+	isValueRecv := fname == ""
+	if sel, ok := t.Fun.(*ast.SelectorExpr); ok && !isValueRecv {
+		if id, ok := sel.X.(*ast.Ident); ok {
+			if _, bound := c.env[id.Name]; bound || strings.HasPrefix(id.Name, "ghost__") {
+				isValueRecv = true
+			}
+		}
+	}
+	if sel, ok := t.Fun.(*ast.SelectorExpr); ok && isValueRecv {
 		recv := c.expr(sel.X, n)
 		if recv.T != nil {
 			ms := c.x.prog.ssa.MethodSets.MethodSet(recv.T)
